@@ -19,18 +19,6 @@ structure SlineOK (sl : Sline) : Prop where
 /-- the bytes of the line: `buf[0 .. len)` -/
 def Sline.bytes (sl : Sline) : List Byte := sl.buf.take sl.len.toNat
 
-theorem take_set_succ {α : Type} (l : List α) (i : Nat) (a : α) (h : i < l.length) :
-    (l.set i a).take (i + 1) = l.take i ++ [a] := by
-  induction l generalizing i with
-  | nil => simp at h
-  | cons x xs ih =>
-    cases i with
-    | zero => simp
-    | succ j =>
-      simp only [List.length_cons] at h
-      simp only [List.set_cons_succ, List.take_succ_cons, List.cons_append, List.cons.injEq, true_and]
-      exact ih j (by omega)
-
 theorem drop_set_of_lt {α : Type} (l : List α) (i n : Nat) (a : α) (h : i < n) :
     (l.set i a).drop n = l.drop n := by
   induction l generalizing i n with
